@@ -104,6 +104,22 @@ class SymWorld(object):
     def choose(self, n, label="c"):
         return self.ctx.choose(n, label)
 
+    def char(self, name, domain):
+        """A symbolic character (code point variable) restricted to the interval set `domain`."""
+        from symx import strings
+        return strings.fresh_char(name, domain)
+
+    def text(self, parts):
+        """Build a (symbolic) string from concrete pieces and symbolic characters."""
+        from symx import strings
+        out = []
+        for p in parts:
+            if isinstance(p, str):
+                out.extend(p)
+            else:
+                out.append(p)
+        return strings.SymStr(out)
+
     def flag(self, label):
         """A nondeterministic *concrete* boolean (forked)."""
         return self.ctx.choose(2, label) == 1
@@ -215,6 +231,13 @@ class ConcWorld(object):
 
     def flag(self, label):
         return self.choose(2, label) == 1
+
+    def char(self, name, domain):
+        v = int(self._val(name, domain[0][0]))
+        return chr(v)
+
+    def text(self, parts):
+        return "".join(parts)
 
     def check(self, cond, label, detail=None):
         if not cond:
